@@ -55,6 +55,20 @@ func init() {
 		rtPkg + "Choice": func(e *Engine, _ *frame, _ token.Pos, a []Value) Value {
 			v := e.input(a[0], 64).(*term.T)
 			n := asT(a[1])
+			if n.IsConst() && v.Op == term.OpVar && !e.pcVars[v.ID] && n.Val > 0 && n.Val < 4096 {
+				// fresh variable constrained only by v < n: every value is feasible
+				var val uint64
+				if e.replaying() {
+					val = e.prefix[len(e.decisions)]
+				} else {
+					for k := n.Val - 1; k >= 1; k-- {
+						e.pending = append(e.pending, append(append([]uint64(nil), e.decisions...), k))
+					}
+				}
+				e.decisions = append(e.decisions, val)
+				e.assertPC(term.Eq(v, term.Const(64, val)))
+				return cint(int(val))
+			}
 			e.assume(term.Ult(v, n))
 			lim := 70
 			if n.IsConst() {
